@@ -163,6 +163,8 @@ def run(tier, seed, replay=None):
                        "remove_tunnel_delay (+ retry budget); TLC validates each run against Onion.tla and evaluates Reclaimed "
                        "in every state and Quiet + closed outside sockets at the deadline; non-trivial = distinct runs with a loss "
                        "or a teardown")
+    if replay and K.replay_file(ctx, PID, replay, NONTRIVIAL):
+        return ctx.finish()
     ctx.assumptions += ["bounds derive from the default settings actually in force (20 s inactivity, 5 s sweep, 5 s delay, 6 x 10 s "
                         "retry budget); max_time (1 h) is the last resort the statement allows and is not reached",
                         "a vanished originator's own tables are not required to empty (it is gone)"]
